@@ -364,6 +364,21 @@ func RuleM4(c *Ctx) {
 					return cl.values()
 				}
 			}
+			// … or an affine function of the loop variable (j := nbChunks - k)
+			for _, cl := range cls {
+				if !cl.loop.Blocks[at] {
+					continue
+				}
+				if f := linOf(v, cl.phi, nil); f.ok && f.a != 0 {
+					if vs, ok := cl.values(); ok {
+						out := make([]int64, len(vs))
+						for i, x := range vs {
+							out[i] = f.a*x + f.b
+						}
+						return out, true
+					}
+				}
+			}
 			return nil, false
 		}
 		if dma {
@@ -1073,88 +1088,111 @@ func (c *Ctx) imageOfD(v ssa.Value, seen map[ssa.Value]bool) string {
 		if _, isSlice := x.Type().Underlying().(*types.Slice); !isSlice {
 			return ""
 		}
-		var cl *countedLoop
-		for _, l := range countedLoops(x.Parent()) {
-			if l.loop.Header == x.Block() {
-				cl = l
-			}
-		}
-		if cl == nil || cl.step != 1 || cl.op != token.LSS {
-			return ""
-		}
-		if z, isZ := core.ConstInt(cl.init); !isZ || z != 0 {
+		elem, cl, ok := appendFill(x)
+		if !ok {
 			return ""
 		}
 		src, isLen := core.IsLenOf(cl.bound)
 		if !isLen {
 			return ""
 		}
-		for i, e := range x.Edges {
-			pred := x.Block().Preds[i]
-			if !cl.loop.Blocks[pred] {
-				// entry: an empty slice
-				empty := false
-				switch in := e.(type) {
-				case *ssa.MakeSlice:
-					if k, isK := core.ConstInt(in.Len); isK && k == 0 {
-						empty = true
-					}
-				case *ssa.Slice:
-					if in.High != nil {
-						if k, isK := core.ConstInt(in.High); isK && k == 0 {
-							empty = true
-						}
-					}
-				case *ssa.Const:
-					empty = in.IsNil()
+		// the element is computed from src[i] for the loop variable i
+		reach := core.ReachFrom([]ssa.Value{src}, nil)
+		fromSrc := false
+		if reach[elem] {
+			core.AllInstrs(x.Parent(), func(in ssa.Instruction) {
+				if sia, ok := in.(*ssa.IndexAddr); ok && sia.X == src && core.StripConv(sia.Index) == cl.phi && reach[sia] {
+					fromSrc = true
 				}
-				if !empty {
-					return ""
-				}
-				continue
-			}
-			// back edge: append(phi, one element read from src[i]), on every iteration
-			app, isCall := e.(*ssa.Call)
-			if !isCall {
-				return ""
-			}
-			if bi, isB := app.Call.Value.(*ssa.Builtin); !isB || bi.Name() != "append" || app.Call.Args[0] != ssa.Value(x) {
-				return ""
-			}
-			if !app.Block().Dominates(pred) {
-				return ""
-			}
-			sl, isSl := app.Call.Args[1].(*ssa.Slice)
-			if !isSl || !isArrayOfLen(sl.X.Type(), 1) {
-				return ""
-			}
-			fromSrc := false
-			if arr, isAl := sl.X.(*ssa.Alloc); isAl {
-				reach := core.ReachFrom([]ssa.Value{src}, nil)
-				for _, r := range core.Refs(arr) {
-					if ia, ok := r.(*ssa.IndexAddr); ok {
-						for _, rr := range core.Refs(ia) {
-							if st, ok := rr.(*ssa.Store); ok && st.Addr == ssa.Value(ia) && reach[st.Val] {
-								// and the element is src[i] for the loop variable i
-								okIdx := false
-								core.AllInstrs(x.Parent(), func(in ssa.Instruction) {
-									if sia, ok := in.(*ssa.IndexAddr); ok && sia.X == src && core.StripConv(sia.Index) == cl.phi && reach[sia] {
-										okIdx = true
-									}
-								})
-								fromSrc = okIdx
-							}
-						}
-					}
-				}
-			}
-			if !fromSrc {
-				return ""
-			}
+			})
+		}
+		if !fromSrc {
+			return ""
 		}
 		return c.imageOfD(src, seen)
 	}
 	return ""
+}
+
+// appendFill: x is the loop-header phi of a slice that starts empty and is extended by exactly one
+// `x = append(x, elem)` on every iteration of a counted loop i = 0, 1, … (so after the loop x[i] is the elem of
+// iteration i, as if it had been written `x[i] = elem` into a slice of the loop's length).
+func appendFill(x *ssa.Phi) (elem ssa.Value, cl *countedLoop, ok bool) {
+	if _, isSlice := x.Type().Underlying().(*types.Slice); !isSlice {
+		return nil, nil, false
+	}
+	for _, l := range countedLoops(x.Parent()) {
+		if l.loop.Header == x.Block() {
+			cl = l
+		}
+	}
+	if cl == nil || cl.step != 1 || cl.op != token.LSS {
+		return nil, nil, false
+	}
+	if z, isZ := core.ConstInt(cl.init); !isZ || z != 0 {
+		return nil, nil, false
+	}
+	for i, e := range x.Edges {
+		pred := x.Block().Preds[i]
+		if !cl.loop.Blocks[pred] {
+			// entry: an empty slice
+			empty := false
+			switch in := e.(type) {
+			case *ssa.MakeSlice:
+				if k, isK := core.ConstInt(in.Len); isK && k == 0 {
+					empty = true
+				}
+			case *ssa.Slice:
+				if in.High != nil {
+					if k, isK := core.ConstInt(in.High); isK && k == 0 {
+						empty = true
+					}
+				}
+			case *ssa.Const:
+				empty = in.IsNil()
+			}
+			if !empty {
+				return nil, nil, false
+			}
+			continue
+		}
+		// back edge: append(phi, one element), on every iteration
+		app, isCall := e.(*ssa.Call)
+		if !isCall {
+			return nil, nil, false
+		}
+		if bi, isB := app.Call.Value.(*ssa.Builtin); !isB || bi.Name() != "append" || app.Call.Args[0] != ssa.Value(x) {
+			return nil, nil, false
+		}
+		if !app.Block().Dominates(pred) {
+			return nil, nil, false
+		}
+		sl, isSl := app.Call.Args[1].(*ssa.Slice)
+		if !isSl || !isArrayOfLen(sl.X.Type(), 1) {
+			return nil, nil, false
+		}
+		arr, isAl := sl.X.(*ssa.Alloc)
+		if !isAl {
+			return nil, nil, false
+		}
+		var found ssa.Value
+		n := 0
+		for _, r := range core.Refs(arr) {
+			if ia, ok := r.(*ssa.IndexAddr); ok {
+				for _, rr := range core.Refs(ia) {
+					if st, ok := rr.(*ssa.Store); ok && st.Addr == ssa.Value(ia) {
+						found = st.Val
+						n++
+					}
+				}
+			}
+		}
+		if n != 1 || (elem != nil && elem != found) {
+			return nil, nil, false
+		}
+		elem = found
+	}
+	return elem, cl, elem != nil
 }
 
 // ---------------------------------------------------------------------------
@@ -1226,6 +1264,88 @@ func RuleLG(targets [][4]string) Rule {
 			})
 		}
 		c.FloorN("LG", len(targets)*2, n, "guarded uses")
+	}
+}
+
+// RuleLGOwn — wrappers that leave the length comparison to the routine they delegate to (rule LG decides it there,
+// rule M1 that both vectors are handed on whole) must not pair the two vectors themselves.
+func RuleLGOwn(targets [][5]string) Rule {
+	return func(c *Ctx) {
+		c.Rule("LG", "length guard, delegating wrappers: a wrapper that hands two parallel slices on to a routine that compares their lengths indexes each of them only by a loop variable bounded by that slice's own length, unless it has established len(a) == len(b) itself (indexing one by the other's range panics or silently truncates before the comparison is ever made)")
+		n := 0
+		for _, t := range targets {
+			fn := c.P.Fn(t[0], t[1], t[2])
+			if fn == nil {
+				c.Unresolved("LG", strings.Join(t[:3], "."))
+				continue
+			}
+			c.Saw(core.FnName(fn))
+			a, b := "len(p:"+t[3]+")", "len(p:"+t[4]+")"
+			canon := func(v ssa.Value) string {
+				if x, isLen := core.IsLenOf(v); isLen {
+					if p := paramBehind(x); p != nil {
+						return "len(p:" + p.Name() + ")"
+					}
+				}
+				return core.PathOf(v)
+			}
+			var facts []eqFact
+			for _, cd := range core.Conds(fn) {
+				if e := cd.EdgeWhere(token.EQL); e >= 0 {
+					cut := core.NewCuts()
+					cut.AddEdge(cd.Block, e)
+					facts = append(facts, eqFact{canon(cd.X), canon(cd.Y), cut, cd.If.Pos()})
+				}
+			}
+			cls := countedLoops(fn)
+			for _, f := range core.Family(fn) {
+				core.AllInstrs(f, func(i ssa.Instruction) {
+					var base, idx ssa.Value
+					what := ""
+					switch x := i.(type) {
+					case *ssa.IndexAddr:
+						base, idx, what = x.X, x.Index, "index"
+					case *ssa.Index:
+						base, idx, what = x.X, x.Index, "index"
+					case *ssa.Slice:
+						if x.Low != nil || x.High != nil {
+							base, what = x.X, "slice"
+						}
+					}
+					if base == nil {
+						return
+					}
+					p := paramBehind(base)
+					if p == nil || p.Parent() != fn || (p.Name() != t[3] && p.Name() != t[4]) {
+						return
+					}
+					n++
+					key := fmt.Sprintf("%s.%s:%s of %s@%s", t[1], t[2], what, p.Name(), c.relInFn(fn, i.Pos()))
+					if f == fn {
+						if ok, used := connected(fn, facts, i, []string{a, b}); ok {
+							c.OK("LG", key, i.Pos(), used...)
+							return
+						}
+					}
+					own := false
+					if idx != nil && f == fn {
+						for _, cl := range cls {
+							if cl.phi != core.StripConv(idx) || !cl.loop.Blocks[i.Block()] || cl.step != 1 || cl.op != token.LSS {
+								continue
+							}
+							if z, isZ := core.ConstInt(cl.init); !isZ || z < 0 {
+								continue
+							}
+							if x, isLen := core.IsLenOf(cl.bound); isLen && paramBehind(x) == p {
+								own = true
+							}
+						}
+					}
+					c.Check(own, "LG", key, i.Pos(), fmt.Sprintf("%s: %s of %s by something other than a loop over %s itself, and len(%s) == len(%s) has not been established: with vectors of different length this panics or silently drops the tail instead of returning the length error of the routine it delegates to", core.FnName(fn), what, p.Name(), p.Name(), t[3], t[4]), "indexed by a loop variable bounded by its own length")
+				})
+			}
+		}
+		c.FloorN("LG", len(targets), n, "indexings in delegating wrappers")
 	}
 }
 
@@ -1641,7 +1761,8 @@ func RuleM10(c *Ctx) {
 	}
 	ok := true
 	var why []string
-	var nbPoints, nbSplits ssa.Value
+	var nbPoints, nbSpawned poly
+	pc := &polyCtx{}
 	var cl *countedLoop
 	if site == nil || site.target == nil {
 		ok = false
@@ -1649,7 +1770,8 @@ func RuleM10(c *Ctx) {
 	} else {
 		cl = loopOf(countedLoops(fn), site.at.Block())
 		// values of the spawned function expressed in the parent: its parameters stand for the go statement's arguments
-		tr := func(v ssa.Value) ssa.Value {
+		var tr func(v ssa.Value) ssa.Value
+		tr = func(v ssa.Value) ssa.Value {
 			v = core.StripConv(v)
 			if p, isP := v.(*ssa.Parameter); isP && p.Parent() == site.target {
 				for i, q := range site.target.Params {
@@ -1658,8 +1780,24 @@ func RuleM10(c *Ctx) {
 					}
 				}
 			}
+			// … or a captured variable declared (and assigned once) inside the spawn loop's body
+			if ld, isLd := v.(*ssa.UnOp); isLd && ld.Op == token.MUL && cl != nil {
+				if cell, isCell := ld.X.(*ssa.Alloc); isCell && cell.Parent() == fn && cl.loop.Blocks[cell.Block()] {
+					if sts := allStoresTo(fn, cell); len(sts) == 1 && sts[0].Block() == cell.Block() && core.Precedes(fn, sts[0], ld) {
+						return tr(sts[0].Val)
+					}
+				}
+				if fv, isFV := ld.X.(*ssa.FreeVar); isFV && fv.Parent() == site.target {
+					if cell, isCell := core.FreeVarBinding(fv).(*ssa.Alloc); isCell && cell.Parent() == fn && cl.loop.Blocks[cell.Block()] {
+						if sts := allStoresTo(fn, cell); len(sts) == 1 && sts[0].Block() == cell.Block() {
+							return tr(sts[0].Val)
+						}
+					}
+				}
+			}
 			return v
 		}
+		pc.tr = tr
 		inner := callsTo(site.target, "/bandersnatch", "", "msmInnerPointProj")
 		if cl == nil || len(inner) != 1 {
 			ok = false
@@ -1681,15 +1819,13 @@ func RuleM10(c *Ctx) {
 					ok = false
 					why = append(why, "a split does not slice the caller's "+wantBase)
 				}
-				lo, hi := tr(sl.Low), tr(sl.High)
-				lom, isMul := lo.(*ssa.BinOp)
-				var P ssa.Value
-				if isMul && lom.Op == token.MUL {
-					switch {
-					case core.StripConv(lom.X) == cl.phi:
-						P = lom.Y
-					case core.StripConv(lom.Y) == cl.phi:
-						P = lom.X
+				// as polynomials in the loop variable i: low = i*P and high = (i+1)*P for one stride P
+				iP := pc.leafPoly(cl.phi)
+				lo, hi := pc.of(sl.Low, 0), pc.of(sl.High, 0)
+				var P poly
+				for _, l := range append([]ssa.Value{}, pc.leaves...) {
+					if cand := pc.leafPoly(l); !cand.eq(iP) && lo.eq(iP.mul(cand)) {
+						P = cand
 					}
 				}
 				if P == nil {
@@ -1697,46 +1833,27 @@ func RuleM10(c *Ctx) {
 					why = append(why, "split i does not start at i*nbPoints")
 					continue
 				}
-				okHi := false
-				if hb, isB := hi.(*ssa.BinOp); isB {
-					switch hb.Op {
-					case token.ADD:
-						okHi = (core.StripConv(hb.X) == lo && core.SameExpr(hb.Y, P)) || (core.StripConv(hb.Y) == lo && core.SameExpr(hb.X, P))
-					case token.MUL:
-						for _, pr := range [][2]ssa.Value{{hb.X, hb.Y}, {hb.Y, hb.X}} {
-							if add, isAdd := core.StripConv(pr[0]).(*ssa.BinOp); isAdd && add.Op == token.ADD && core.SameExpr(pr[1], P) {
-								one, isK := core.ConstInt(add.Y)
-								if isK && one == 1 && core.StripConv(add.X) == cl.phi {
-									okHi = true
-								}
-							}
-						}
-					}
-				}
-				if !okHi {
+				if !hi.eq(lo.add(P, 1)) {
 					ok = false
 					why = append(why, "split i does not get [i*nbPoints, i*nbPoints+nbPoints)")
 				}
 				if nbPoints == nil {
 					nbPoints = P
-				} else if !core.SameExpr(nbPoints, P) {
+				} else if !nbPoints.eq(P) {
 					ok = false
 					why = append(why, "points and scalars are split with different strides")
 				}
 			}
-			if b, isSub := core.StripConv(cl.bound).(*ssa.BinOp); isSub && b.Op == token.SUB {
-				if one, isK := core.ConstInt(b.Y); isK && one == 1 {
-					nbSplits = b.X
-				}
-			}
 			z, isZ := core.ConstInt(cl.init)
-			if nbSplits == nil || !isZ || z != 0 || cl.step != 1 || cl.op != token.LSS {
+			if !isZ || z != 0 || cl.step != 1 || cl.op != token.LSS {
 				ok = false
 				why = append(why, "the spawn loop does not run i = 0 .. nbSplits-2")
+			} else {
+				nbSpawned = pc.of(cl.bound, 0)
 			}
 		}
 	}
-	// the tail processed by the caller
+	// the tail processed by the caller: [B*P:] where the spawned splits are i = 0 .. B-1
 	var tail *ssa.Call
 	for _, call := range callsTo(fn, "/bandersnatch", "", "msmInnerPointProj") {
 		tail = call
@@ -1744,21 +1861,12 @@ func RuleM10(c *Ctx) {
 	if tail == nil {
 		ok = false
 		why = append(why, "no tail call of msmInnerPointProj")
-	} else if nbPoints != nil && nbSplits != nil {
+	} else if nbPoints != nil && nbSpawned != nil {
 		for _, a := range tail.Call.Args[2:4] {
 			sl, isSl := a.(*ssa.Slice)
 			good := isSl && sl.High == nil && sl.Low != nil
 			if good {
-				lo, isMul := core.StripConv(sl.Low).(*ssa.BinOp)
-				good = isMul && lo.Op == token.MUL && core.SameExpr(lo.Y, nbPoints)
-				if good {
-					sub, isSub := core.StripConv(lo.X).(*ssa.BinOp)
-					good = isSub && sub.Op == token.SUB && core.SameExpr(sub.X, nbSplits)
-					if good {
-						one, isK := core.ConstInt(sub.Y)
-						good = isK && one == 1
-					}
-				}
+				good = pc.of(sl.Low, 0).eq(nbSpawned.mul(nbPoints))
 			}
 			if !good {
 				ok = false
@@ -1796,12 +1904,41 @@ func RulePW(c *Ctx) {
 		a, isA = m.Call.Args[2].(*ssa.IndexAddr)
 		other = m.Call.Args[1]
 	}
+	// "previous" pointer carried around the loop: starts at &result[c0] and becomes this iteration's destination,
+	// so it is the destination of the iteration before (index one less, given a unit step)
+	carried := false
+	carriedInit := int64(-1)
+	if !isA && isD {
+		for k, src := range m.Call.Args[1:3] {
+			phi, isPhi := src.(*ssa.Phi)
+			if !isPhi || phi.Block() != cl.loop.Header || len(phi.Edges) != 2 {
+				continue
+			}
+			init, step := phiInit(phi, cl.loop), phiStep(phi, cl.loop)
+			ia0, isIA := init.(*ssa.IndexAddr)
+			c0, isK := int64(0), false
+			if isIA {
+				c0, isK = core.ConstInt(ia0.Index)
+			}
+			if isIA && isK && ia0.X == dst.X && step == ssa.Value(dst) {
+				carried, carriedInit = true, c0
+				a, isA = dst, true
+				other = m.Call.Args[1+(1-k)]
+			}
+		}
+	}
 	if !isD || !isA || dst.X != a.X || core.PathOf(other) != "&p:x" || cl.step != 1 {
 		ok = false
 	} else {
 		// as index sets: the destination runs over exactly 1 .. degree-1 and the source is the entry just before it
 		di, si := linNOf(dst.Index, cl.phi, isDegree, 0), linNOf(a.Index, cl.phi, isDegree, 0)
 		init, bound := linNOf(cl.init, nil, isDegree, 0), linNOf(cl.bound, nil, isDegree, 0)
+		if carried && di.ok && init.ok {
+			si = linN{di.k, di.b - 1, di.n, true}
+			if carriedInit != di.k*init.b+di.b-1 {
+				ok = false // the carried pointer does not start at the entry just before the first destination
+			}
+		}
 		last := bound
 		switch cl.op {
 		case token.LSS:
